@@ -51,6 +51,19 @@ func (f *TMemoryOutputBuffer) Write(buf []byte) (int, error) {
 	return f.TMemoryBuffer.Write(buf)
 }
 
+// WriteByte writes a single byte to the buffer, subject to the size limit.
+// (Without it the method promoted from bytes.Buffer would bypass the limit.)
+func (f *TMemoryOutputBuffer) WriteByte(c byte) error {
+	_, err := f.Write([]byte{c})
+	return err
+}
+
+// WriteString writes the string to the buffer, subject to the size limit.
+// (Without it the method promoted from bytes.Buffer would bypass the limit.)
+func (f *TMemoryOutputBuffer) WriteString(s string) (int, error) {
+	return f.Write([]byte(s))
+}
+
 // Reset clears the buffer
 func (f *TMemoryOutputBuffer) Reset() {
 	f.TMemoryBuffer.Reset()
